@@ -10,6 +10,9 @@
 (* transfer costs gas, so the state space is finite and explored completely.             *)
 EXTENDS ITSMC
 CONSTANTS Small,
+          Donated,    \* units of the canonical token somebody simply sent to the service's address before the history starts:
+                      \* the service holds them, but nobody locked them - an outbound transfer must still TAKE from the
+                      \* sender (a service that pays the sender out of its holding would go unnoticed with an empty holding)
           CanonName   \* "sac": a Stellar asset contract; "itk": an interchain token built from the repository's source,
                       \* registered as a canonical token (the only way the token's SOURCE meets the service: the tokens
                       \* the service deploys itself run the pinned wasm)
@@ -72,7 +75,7 @@ Acts(s) ==
 Within(s) == s.bal["iA1"]["bob"] <= (IF Small THEN 1 ELSE 2) /\ s.bal["iA1"]["app"] <= 1 /\ s.bal["iB1"]["bob"] <= 1
              /\ s.bal[CanonName]["app"] <= 1
 InitState == [Blank("owner0") EXCEPT !.trusted["ethereum"] = TRUE,
-                 !.bal[CanonName]["alice"] = 2, !.bal[CanonName]["bob"] = IF Small THEN 0 ELSE 1,
+                 !.bal[CanonName]["alice"] = 2, !.bal[CanonName]["its"] = Donated, !.bal[CanonName]["bob"] = IF Small THEN 0 ELSE 1,
                  !.gas["alice"] = IF Small THEN 2 ELSE 3, !.gas["bob"] = IF Small THEN 0 ELSE 1]
 Init == st = InitState
 EnabledActs(s) == {a \in Acts(s) : Within(Apply(s, a).post)}
